@@ -36,14 +36,38 @@ def shards(tier, seed):
     return campaign.tree_shards(TREES[tier], 2 if tier == "quick" else 8)
 
 
-def generator_accepts(files):
+def generator_accepts(files, base_files=None):
+    """base_files: the valid tree the mutant was derived from - it is generated first by the same generator
+    instance from the same input directory, which is then rewritten in place (a rule must not be bypassed
+    by anything an earlier successful run left behind in the instance)."""
     root = stage.scratch("vf-c17-")
     try:
         xml_root = os.path.join(root, "xml")
         os.makedirs(xml_root)
-        stage.write_tree(xml_root, files)
         from pathlib import Path
 
+        if base_files is not None:
+            import contextlib
+            import io
+            import shutil
+
+            stage.write_tree(xml_root, base_files)
+            g = stage.generator_class()(Path(xml_root))
+            try:
+                with contextlib.redirect_stdout(io.StringIO()):
+                    g.generate(Path(os.path.join(root, "out-first")))
+                    shutil.rmtree(xml_root)
+                    os.makedirs(xml_root)
+                    stage.write_tree(xml_root, files)
+                    try:
+                        g.generate(Path(os.path.join(root, "out")))
+                        return True, None
+                    except Exception as e:
+                        return False, e
+            except Exception:
+                shutil.rmtree(xml_root, ignore_errors=True)
+                os.makedirs(xml_root)
+        stage.write_tree(xml_root, files)
         ok, err, out = stage.run_generator(xml_root, os.path.join(root, "out"))
         return ok, err
     finally:
@@ -56,7 +80,8 @@ def run(shard, rec, tier, seed):
         if grammar.check(spec):
             rec.inconclusive.append("SpecGen tree %d fails its grammar certificate" % ti)
             continue
-        ok, err = generator_accepts(S.render(spec))
+        base_files = S.render(spec)
+        ok, err = generator_accepts(base_files)
         if not ok:
             rec.count("base-spec-rejected-by-generator")
             continue
@@ -71,7 +96,10 @@ def run(shard, rec, tier, seed):
                 rec.seen("unconfirmed-operators", opname + (":accepted" if not errs else ":" + sorted(rules)[0]))
                 continue
             files = S.render(mut)
-            ok, err = generator_accepts(files)
+            reuse = rec.evals % 3 == 0 or opname.endswith("-removed-from-enum")
+            ok, err = generator_accepts(files, base_files if reuse else None)
+            if reuse:
+                rec.count("mutants-run-on-an-instance-that-generated-the-valid-tree-first")
             rec.count("mutants-run-through-generator")
             rec.count("rule:" + rule)
             rec.seen("rules", rule)
